@@ -1,6 +1,7 @@
 import SimplicityModel.IterProps
 import SimplicityModel.IterTie
 import SimplicityModel.IterCert
+import SimplicityModel.IterAssert
 set_option linter.unusedSectionVars false
 set_option linter.unusedVariables false
 /-!
@@ -45,6 +46,19 @@ theorem iterators_terminate :
     (∀ (s s' : PSt K) o, pstep key s = some (s', o) → pWeight s'.stack < pWeight s.stack) ∧
     (∀ md (s s' : VSt K) o, vstep key md s = some (s', o) → vWeight s'.stack < vWeight s.stack) :=
   ⟨step_decreases key, pstep_decreases key, vstep_decreases key⟩
+
+/-- **no `assert!` of `PostOrderIter::next` fails**, and its accesses `self.stack[stack_len - 1]`,
+`self.stack[stack_len - 2]` are in range, in every state the iteration passes through: a popped
+processed item with `Previous::Root` finds the stack empty, with `ParentLeft`/`ParentRight` finds its
+processed parent on top, with `SiblingLeft` its sibling and below it the processed parent (so the
+model's total `patch` never takes the pass-through case the Rust code would panic on). -/
+theorem post_asserts_never_fail (root : T) (s : St K) (h : Reach key (init root) s) : assertOK s = true :=
+  asserts_hold key root s h
+
+/-- the checked condition is not trivially true: a processed left child without a parent below it -/
+example : assertOK (K := Nat) ⟨0, [⟨.leaf 0, true, none, none, .parentLeft⟩], fun _ => none⟩ = false := rfl
+example : Reach ptr (init (T.leaf 0)) ⟨0, [⟨.leaf 0, true, none, none, .root⟩], fun _ => none⟩ :=
+  .step (.refl _) (o := none) (by simp [step, init, unprocessed, childStatus, T.left])
 
 /-! ## post-order -/
 
